@@ -137,3 +137,16 @@ Proof.
   - repeat constructor; try (vm_compute; reflexivity); try (apply NoDup_singleton); try (intros H; inversion H).
   - vm_compute. tauto.
 Qed.
+
+(* a client re-submits an existing calculated channel WITH its key next to a new channel
+   (retrieve-if-exists), then creates one more free channel: three different keys *)
+Definition w_resubmit : list op :=
+  [Create 1 [w_ch "c" 0 7 false 0 false 1] false false;
+   Create 1 [Chan "c" node_free 7 false 1 2 true false 1; w_ch "y" node_free 2 false 0 true 0] true false;
+   Create 1 [w_ch "z" node_free 2 false 0 true 0] false false].
+Lemma w_resubmit_facts :
+  all_ok true true w_s0 w_resubmit = true /\
+  bool_decide (dom (s_tab (run true true w_s0 w_resubmit)) =
+               {[new_key node_free 1; new_key node_free 2; new_key node_free 3; new_key node_free 4]}) = true /\
+  s_free (run true true w_s0 w_resubmit) = 4.
+Proof. vm_compute. repeat split; reflexivity. Qed.
